@@ -120,7 +120,7 @@ rc::Gen<RayCase<F>> genRay(int N)
       c.hi[i] = gridval<F>(a1[i], c.mode);
     }
     // origin: 0 = every axis independent, 1 = middle of the box except one axis, 2 = middle (inside)
-    const int okind = wpick({{5, 0}, {4, 1}, {2, 2}});
+    const int okind = wpick({{4, 0}, {4, 1}, {3, 2}});
     const int ospecial = upick(0, N - 1);
     for (int i = 0; i < N; ++i) {
       const bool freeAxis = okind == 0 || (okind == 1 && i == ospecial);
@@ -641,12 +641,12 @@ void xfm_case(const XfmCase &c, pbt::Ctx &ctx)
 
 static void register_properties()
 {
-  pbt::property<RayCase<float>>("ray2f", 30000, genRay<float>(2), ray_case<float, 2>);
-  pbt::property<RayCase<float>>("ray3f", 40000, genRay<float>(3), ray_case<float, 3>);
-  pbt::property<RayCase<double>>("ray2d", 15000, genRay<double>(2), ray_case<double, 2>);
-  pbt::property<RayCase<double>>("ray3d", 15000, genRay<double>(3), ray_case<double, 3>);
-  pbt::property<XfmCase>("xfmBounds3f", 30000, genXfm(), xfm_case<false>);
-  pbt::property<XfmCase>("xfmBounds3fa", 30000, genXfm(), xfm_case<true>);
+  pbt::property<RayCase<float>>("ray2f", 15000, genRay<float>(2), ray_case<float, 2>);
+  pbt::property<RayCase<float>>("ray3f", 20000, genRay<float>(3), ray_case<float, 3>);
+  pbt::property<RayCase<double>>("ray2d", 8000, genRay<double>(2), ray_case<double, 2>);
+  pbt::property<RayCase<double>>("ray3d", 8000, genRay<double>(3), ray_case<double, 3>);
+  pbt::property<XfmCase>("xfmBounds3f", 15000, genXfm(), xfm_case<false>);
+  pbt::property<XfmCase>("xfmBounds3fa", 15000, genXfm(), xfm_case<true>);
   pbt::property<RayCase<float>>("ray_empty_box", 500, genRay<float>(3), ray_empty_box);
 }
 PBT_MAIN("C05_rays")
